@@ -193,6 +193,14 @@ pub fn run(args: &Args, out: &mut Out) {
         config.insert("unused_variable".to_owned(), toml::value::Value::Table(t));
         Checker::new(CheckerConfig { config, ..CheckerConfig::default() }, std51.clone()).unwrap()
     };
+    // high_cyclomatic_complexity with a low threshold (the lint is off by default; unfiltered diagnostics include it)
+    let checker_hcc: Checker<toml::value::Value> = {
+        let mut config: std::collections::HashMap<String, toml::value::Value> = std::collections::HashMap::new();
+        let mut t = toml::value::Table::new();
+        t.insert("maximum_complexity".to_owned(), toml::value::Value::Integer(2));
+        config.insert("high_cyclomatic_complexity".to_owned(), toml::value::Value::Table(t));
+        Checker::new(CheckerConfig { config, ..CheckerConfig::default() }, std51.clone()).unwrap()
+    };
     let checker_v3 = partial(None, Some(false));
     let checker_v4 = partial(Some("^x"), None);
     let std_sx = crate::libgen::lib_sx(&std51);
@@ -220,6 +228,7 @@ pub fn run(args: &Args, out: &mut Out) {
                     lint_diags_sx(&checker_v2, &ast, &d, &codes),
                     lint_diags_sx(&checker_v3, &ast, &d, &codes),
                     lint_diags_sx(&checker_v4, &ast, &d, &codes),
+                    lint_diags_sx(&checker_hcc, &ast, &d, &["high_cyclomatic_complexity"]),
                 ]),
             )
         }));
